@@ -13,6 +13,7 @@ from mc import synth, calc as K
 from mc.explore import V, HarnessError, repo_root, interleavings
 
 ID = "C14"
+VERIF_ROOT = os.path.dirname(os.path.dirname(os.path.dirname(os.path.abspath(__file__))))
 MOD = "mc.props.c14"
 
 DATA = {
@@ -108,7 +109,7 @@ def golden(name):
 
 def golden_subprocess(name, seed="0"):
     env = dict(os.environ, PYTHONHASHSEED=str(seed))
-    r = subprocess.run([sys.executable, "-B", "-W", "ignore", "-m", "mc.props.c14", "golden", name], capture_output=True, text=True, env=env, cwd="/verif")
+    r = subprocess.run([sys.executable, "-B", "-W", "ignore", "-m", "mc.props.c14", "golden", name], capture_output=True, text=True, env=env, cwd=VERIF_ROOT)
     if r.returncode != 0:
         return {"error": (r.stderr or r.stdout)[-600:]}
     return json.loads(r.stdout.strip().splitlines()[-1])
@@ -141,7 +142,7 @@ def run_cli_case(case):
                 with open(os.path.join(d, fn), "w") as fp:
                     fp.write("{}\n")
                 planted.add(fn)
-        env = dict(os.environ, PYTHONHASHSEED=str(seed), PYTHONPATH=repo_root() + os.pathsep + "/verif")
+        env = dict(os.environ, PYTHONHASHSEED=str(seed), PYTHONPATH=repo_root() + os.pathsep + VERIF_ROOT)
         rundir, settings = d, "settings.yaml"
         if extras == "other-cwd-with-decoys":
             # started from another directory that holds same-named input files of a different data set
